@@ -125,7 +125,10 @@ def spell_int(rng, n):
 def dump_ff(ff):
     blocks = [[k, [str(n) for n in b.nodes], canon_inters(b.interactions), atom_cols(b), b.nrexcl]
               for k, b in ff.blocks.items()]
-    links = [[canon_nodes(l), canon_inters(l.interactions), canon_inters(l.removed_interactions)] for l in ff.links]
+    links = [[canon_nodes(l), canon_inters(l.interactions), canon_inters(l.removed_interactions),
+              [[str(k), canon_attrs(a)] for k, a in l.non_edges],
+              [[[str(ref), canon_attrs(a)] for ref, a in pat] for pat in l.patterns],
+              sorted(l.features)] for l in ff.links]
     mods = [[k, canon_nodes(m), canon_inters(m.interactions)] for k, m in ff.modifications.items()]
     return [blocks, links, mods]
 
@@ -605,6 +608,45 @@ class Gen:
                 self.emit('%s %s' % (name, value))
             self.macros[name] = value
 
+    def macro_twins(self):
+        """the same macros defined, used, REDEFINED and used again in lines that are textually identical to the
+        first ones: every line must be loaded with the value in force where it is written"""
+        r = self.rng
+        self.serial += 1
+        tag = 'T%d' % self.serial
+        for rnd in range(r.randint(2, 3)):
+            kb = r.choice(['1250', '7500', '0.33', '17'])
+            res = r.choice(['ALA', 'GLY', 'SER', 'ALA|GLY'])
+            self.header('macros')
+            self.emit('tk %s' % kb)
+            self.emit('tr %s' % json.dumps(res))
+            self.macros['tk'], self.macros['tr'] = kb, json.dumps(res)
+            if r.random() < 0.7:
+                name = '%sB%d' % (tag, rnd)
+                self.header('moleculetype')
+                self.emit('%s 1' % name, blockname=name)
+                self.header('atoms')
+                self.emit('1 P5 1 TW TA 1')
+                self.emit('2 P5 1 TW TB 2')
+                self.header('bonds')
+                self.emit('TA TB 1 0.31 $tk')
+                cols = [[repr_j('P5'), repr_j('TW'), repr_j(1), repr_j(q)] for q in (1, 2)]
+                self.blocks[name] = [name, ['TA', 'TB'], [['bonds', ['TA', 'TB'], ['1', '0.31', kb], []]], cols, 1]
+                self.kinds.append('block')
+            self.header('link')
+            self.emit('resname $tr')
+            self.header('bonds')
+            self.emit('TA +TB 1 0.35 $tk')
+            self.header('non-edges')
+            self.emit('TA TC')
+            wide = as_loaded({'resname': res})
+            nodes = [['TA', canon_attrs(dict(wide, order=0, atomname='TA'))], ['+TB', canon_attrs(dict(wide, order=1, atomname='TB'))]]
+            self.links.append([nodes, [['bonds', ['TA', '+TB'], ['1', '0.35', kb], []]], [],
+                               [['TA', canon_attrs(dict(wide, order=0, atomname='TC'))]], [], []])
+            self.kinds.append('link')
+        self.has_ctx = True
+        chk.count('ff_macro_redefined_with_identical_lines')
+
     def variables_section(self):
         self.header('variables')
         for _ in range(self.rng.randint(1, 2)):
@@ -702,6 +744,7 @@ class Gen:
         self.serial += 1
         nodes = collections.OrderedDict()    # key -> attrs expected
         inters, removed = [], []
+        non_edges, patterns, features = [], [], set()
         secmeta = {}
         all_nodes = {}
         name = None
@@ -783,19 +826,43 @@ class Gen:
                     used = as_loaded(attrs)
                     used.pop('order', None)
                     touch(key, atom, used, defaults={'PTM_atom': False} if kind == 'modification' else None)
-            elif k < 0.3 and kind == 'link' and self.rich:
-                self.header(r.choice(['features', 'patterns', 'non-edges', 'molmeta', 'citation']))
+            elif k < 0.3 and kind == 'link':
+                # what a link declares besides atoms and interactions; the link-wide attributes written under
+                # [ link ] apply to the partner atom of a non-edge (attributes of the line itself win)
+                self.header(r.choice(['features', 'patterns', 'non-edges', 'non-edges'] + (['molmeta', 'citation'] if self.rich else [])))
                 sect = self.lines[-1][1]['header']
-                if sect == 'features':
-                    self.emit('feat%d' % r.randint(0, 3))
-                elif sect == 'patterns':
-                    self.emit('BB +BB {"resname": "GLY"}')
-                elif sect == 'non-edges':
-                    self.emit('BB +SC1')
-                elif sect == 'molmeta':
-                    self.emit('flag true')
-                else:
-                    self.emit('ref%d' % r.randint(0, 5))
+                for _ in range(r.randint(1, 3) if sect in ('features', 'patterns', 'non-edges') else 1):
+                    if sect == 'features':
+                        fs = ['feat%d' % r.randint(0, 3) for _ in range(r.randint(1, 2))]
+                        self.emit(' '.join(fs))
+                        features.update(fs)
+                    elif sect == 'patterns':
+                        pat, texts = [], []
+                        for _ in range(r.randint(1, 3)):
+                            b, o, _extra = r.choice(abstract)
+                            ref = prefix_of(o) + b
+                            attrs = r.choice([None, None, {'resname': 'GLY'}, {'resname': 'ALA|GLY', 'x': 1}, {'atomname': 'Q'}])
+                            texts.append(ref + ((' ' + json.dumps(attrs)) if attrs else ''))
+                            pat.append([ref, canon_attrs(as_loaded(attrs or {}))])
+                        self.emit(' '.join(texts))
+                        patterns.append(pat)
+                    elif sect == 'non-edges':
+                        (b1, o1, e1), (b2, o2, e2) = r.choice(abstract), r.choice(abstract)
+                        t1, _used1 = self.render_atom(b1, o1, e1)
+                        if r.random() < 0.3:
+                            e2 = dict(e2, resname=r.choice(['GLY', 'SER|THR']))      # overrides the link-wide resname
+                        t2, used2 = self.render_atom(b2, o2, e2)
+                        want = dict(all_nodes)
+                        want.update(used2)
+                        want['order'] = o2
+                        want.setdefault('atomname', b2)
+                        self.emit('%s %s' % (t1, t2))
+                        non_edges.append([prefix_of(o1) + b1, canon_attrs(want)])
+                        chk.count('ff_non_edge_' + ('with_linkwide_attrs' if all_nodes else 'plain'))
+                    elif sect == 'molmeta':
+                        self.emit('flag true')
+                    else:
+                        self.emit('ref%d' % r.randint(0, 5))
             else:
                 delete = kind == 'link' and r.random() < 0.2
                 sect = r.choice(LINK_SECTIONS)
@@ -829,7 +896,7 @@ class Gen:
                     (removed if delete else inters).append([out_sect, keys, expected, canon_attrs(mexp)])
         exp_nodes = [[k, canon_attrs(v)] for k, v in nodes.items()]
         if kind == 'link':
-            self.links.append([exp_nodes, inters, removed])
+            self.links.append([exp_nodes, inters, removed, non_edges, patterns, sorted(features)])
         else:
             self.mods[name] = [name, exp_nodes, inters]
         self.kinds.append(kind)
@@ -848,8 +915,10 @@ class Gen:
                 self.link_like('link')
             elif k < 0.8:
                 self.link_like('modification')
-            elif k < 0.92:
+            elif k < 0.9:
                 self.macros_section()
+            elif k < 0.95:
+                self.macro_twins()
             else:
                 self.citations_section()
             if r.random() < 0.2:
@@ -865,7 +934,7 @@ class Gen:
         def srt(inters):
             return sorted(inters, key=lambda x: x[0])     # stable: file order kept inside a section
         blocks = [[b[0], b[1], srt(b[2]), b[3], b[4]] for b in self.blocks.values()]
-        links = [[l[0], srt(l[1]), srt(l[2])] for l in self.links]
+        links = [[l[0], srt(l[1]), srt(l[2])] + l[3:] for l in self.links]
         mods = [[m[0], m[1], srt(m[2])] for m in self.mods.values()]
         return [blocks, links, mods]
 
@@ -1167,7 +1236,7 @@ def run_ff():
                 if len(ff.links) != extra[0]:
                     errs.append('%d links loaded, %d declared' % (len(ff.links), extra[0]))
                 # the corpus dumps were recorded without the atom columns / nrexcl of blocks
-                if extra[1] is not None and [[b[:3] for b in got[0]], got[1], got[2]] != extra[1]:
+                if extra[1] is not None and [[b[:3] for b in got[0]], [l[:3] for l in got[1]], got[2]] != extra[1]:
                     errs.append('loaded %s, declared %s' % (clip(got, 400), clip(extra[1], 400)))
         elif exp == 'observation':
             chk.count('observation_' + ('rejected' if ff is None else 'loaded'))
